@@ -70,6 +70,9 @@ type Params struct {
 	Deadline int64
 	// Calls > 1: Connect is called that many times on the same Connection; every call is judged on its own.
 	Calls int
+	// RejectKind (with Reject): what the validator's error looks like: "" a plain error, "timeout" one that wraps
+	// context.DeadlineExceeded (so it has Timeout() == true), "temporary" one with a Temporary() method.
+	RejectKind string
 	// NoGetBody: the request has a body that cannot be obtained again (only matters when a retry is due).
 	NoGetBody bool
 }
@@ -84,6 +87,9 @@ func (p Params) Name() string {
 	}
 	if p.NoGetBody {
 		extra += "-nogetbody"
+	}
+	if p.RejectKind != "" {
+		extra += "-reject" + p.RejectKind
 	}
 	return fmt.Sprintf("retries%d-reject%v-chunk%d-bodies%d..%d-canceller%v%s-mul%v%s", p.MaxRetries, p.Reject, p.Chunk, p.Lo, p.Hi, p.Canceller, p.Special, p.Mul, extra)
 }
@@ -104,6 +110,26 @@ type world struct {
 }
 
 var errValidator = errors.New("scripted validator rejection")
+
+type tempErr struct{}
+
+func (tempErr) Error() string   { return "scripted validator rejection that calls itself temporary" }
+func (tempErr) Temporary() bool { return true }
+
+var (
+	errValidatorTimeout = fmt.Errorf("scripted validator rejection: upstream said: %w", context.DeadlineExceeded)
+	errValidatorTemp    = fmt.Errorf("scripted validator rejection: %w", tempErr{})
+)
+
+func validatorErr(kind string) error {
+	switch kind {
+	case "timeout":
+		return errValidatorTimeout
+	case "temporary":
+		return errValidatorTemp
+	}
+	return errValidator
+}
 
 func body(p Params) func() {
 	return func() {
@@ -152,7 +178,7 @@ func body(p Params) func() {
 		cl := sse.Client{HTTPClient: &http.Client{Transport: w.T}, Backoff: sse.Backoff{MaxRetries: p.MaxRetries, Jitter: -1, InitialInterval: time.Millisecond, Multiplier: p.Mul},
 			ResponseValidator: func(*http.Response) error {
 				if p.Reject {
-					return errValidator
+					return validatorErr(p.RejectKind)
 				}
 				return nil
 			}}
@@ -260,7 +286,7 @@ func check(p Params) func(r *vrt.Result) string {
 			if a := w.T.Attempts; len(a) > 0 && a[0].Body != nil && !a[0].Body.Closed {
 				return "the rejected response's body was not closed: " + desc
 			}
-			if len(w.T.Attempts) != 1 || !errors.Is(w.Err, errValidator) {
+			if len(w.T.Attempts) != 1 || !errors.Is(w.Err, validatorErr(p.RejectKind)) {
 				return fmt.Sprintf("the validator rejected the response but Connect made %d attempts and returned %v: %s", len(w.T.Attempts), w.Err, desc)
 			}
 			return ""
@@ -396,6 +422,11 @@ func Scenarios(tier string) []run.Scenario {
 	}
 	add(Params{MaxRetries: 2, Reject: true, Bodies: bodies, Lo: 0, Hi: 40, Ends: []string{"eof", "err"}})
 	add(Params{MaxRetries: -1, Reject: true, Bodies: bodies, Lo: 0, Hi: 40, Ends: []string{"eof", "err"}})
+	for _, kind := range []string{"timeout", "temporary"} {
+		for _, mr := range []int{-1, 0, 2} {
+			add(Params{MaxRetries: mr, Reject: true, RejectKind: kind, Bodies: bodies, Lo: 0, Hi: 8, Ends: []string{"eof"}})
+		}
+	}
 	// a second thread cancels at any moment: before the attempt, between any two reads, while Connect waits for its retry timer
 	small := Bodies(2)
 	for lo := 0; lo < len(small); lo += 16 {
@@ -455,7 +486,7 @@ func Scenarios(tier string) []run.Scenario {
 
 var Check = &run.Check{
 	ID: "C11", Level: "model_checking",
-	Rule: "Scenarios: the real Connect loop on the virtual clock; the response body is every distinct prefix (cut after any byte) of every string of <= 4 (thorough 5) tokens over {LF, data:x, :c, foo, id:a, retry:1, d}, ending with a clean EOF, a read error, or a cancellation of the request context at that read; delivered whole or byte at a time; MaxRetries -1 / 1 / 2; validator accepting or rejecting; plus a second thread that cancels at every possible moment (before the attempt, between any two reads, while Connect waits for its retry timer - all interleavings), plus request contexts whose deadline falls between, at or after the retry instants; plus three Connect calls on one Connection (each must retry afresh); a request body without GetBody when no retry is due; a callback that cancels the request context while complete events are still buffered; plus the same bodies through sse.Read. Body and ending are explorer choices inside each scenario.",
+	Rule: "Scenarios: the real Connect loop on the virtual clock; the response body is every distinct prefix (cut after any byte) of every string of <= 4 (thorough 5) tokens over {LF, data:x, :c, foo, id:a, retry:1, d}, ending with a clean EOF, a read error, or a cancellation of the request context at that read; delivered whole or byte at a time; MaxRetries -1 / 1 / 2; validator accepting or rejecting (with a plain error, one that wraps context.DeadlineExceeded, one that has a Temporary method); plus a second thread that cancels at every possible moment (before the attempt, between any two reads, while Connect waits for its retry timer - all interleavings), plus request contexts whose deadline falls between, at or after the retry instants; plus three Connect calls on one Connection (each must retry afresh); a request body without GetBody when no retry is due; a callback that cancels the request context while complete events are still buffered; plus the same bodies through sse.Read. Body and ending are explorer choices inside each scenario.",
 	Assumptions: []string{
 		"a cancelled request makes the response body fail with the context's error (net/http's documented behaviour), reproduced by the harness body",
 	},
